@@ -591,7 +591,7 @@ func reifyMergeValue(
 		if err != nil {
 			return reflect.Value{}, err
 		}
-		return old, nil
+		return pointerize(t, baseType, old), nil
 	}
 
 	if !old.CanAddr() {
